@@ -19,7 +19,7 @@
    the correspondence check uses).  Only definitions live here, so the model still runs when
    a proof breaks. *)
 From Coq Require Import List ZArith Bool Lia.
-From TskVerif Require Import Base.Common.
+From TskVerif Require Import Base.Common Gen.Generated.
 Import ListNotations.
 Open Scope Z_scope.
 
@@ -371,7 +371,12 @@ Fixpoint encode (s : schema) (v : value) : eres (list Z) :=
                     (a nested object with a missing key), and then encodes the default instead *)
                  let dflt := match p_default m with Some d => encode sub d | None => EErr EKey end in
                  ebind (match lookup k kv with
-                        | Some x => match encode sub x with EErr EKey => dflt | r => r end
+                        | Some x => match encode sub x with
+                                    | EErr EKey =>
+                                        (* regenerated fact: true while object_encode uses try/except *)
+                                        if c12_encode_swallows_nested_keyerror then dflt else EErr EKey
+                                    | r => r
+                                    end
                         | None => dflt
                         end)
                    (fun bs => ebind (go r) (fun rs => EOk (bs ++ rs)))
@@ -721,9 +726,21 @@ Fixpoint missing_format (s : schema) : bool :=
   | SObj _ ps => existsb (fun p : prop => missing_format (snd p)) ps
   end.
 
+(* a Pascal string with count 0 somewhere ("0p": pack writes nothing, unpack raises) *)
+Fixpoint has_pas0 (s : schema) : bool :=
+  match s with
+  | SLeaf _ (Some (BPas n)) _ => n <=? 0
+  | SLeaf _ _ _ => false
+  | SArr _ it => has_pas0 it
+  | SObj _ ps => existsb (fun p : prop => has_pas0 (snd p)) ps
+  end.
+
 Definition construct (t : top) : cres :=
   match t_schema t with
   | SObj req ps =>
+      (* the binaryFormat regex is plain JSON-schema, so it is applied at every depth;
+         c12_pascal_zero_allowed is regenerated from the regex *)
+      if negb c12_pascal_zero_allowed && has_pas0 (t_schema t) then CSchemaErr else
       let req' := match req with
                   | Some r => r
                   | None => map pkey (filter (fun p : prop =>
